@@ -34,12 +34,15 @@
    affected (they are over records only, [c08_close_books]); the close rule "the pools receive what the close
    books" is REFUTED inside the class ([kf_C08_3], [c08_close_rule_refuted_interest], [..._emode]) and proved
    outside it ([c08_close_rule]).  Finding C10-F7 seen from the lend books: [c08_close_stuck].
+   The ESM kill switch of an app (esm MsgKillSwitch, op OKill) and the depreciation of a pool (governance proposal,
+   op ODepreciate) are part of the state and of the histories; every handler's early return on them is modelled in
+   place ([c08_kill_switch_freezes], [c08_depreciated_pool_closed]).
    Not modelled: the generation-1 liquidation / auction modules (x/liquidation MsgLiquidateBorrow, x/auction
-   lend bids, CreteNewBorrow), ESM kill switch, pool depreciation. *)
+   lend bids, CreteNewBorrow), the block hook DeletePoolAndTransferInterest (it deletes pool records). *)
 From Comdex Require Import Lib.Base Lib.DecArith Lib.DecFacts Model.Lend Model.LendEx.
 From Comdex Require Import Proofs.LendProofs Proofs.LendProofsInv Proofs.LendProofsSide Proofs.LendProofsSteps Proofs.LendProofsSteps2
      Proofs.LendProofsLiq Proofs.LendProofsClose Proofs.LendProofsCloseRule Proofs.LendProofsHist Proofs.LendProofsLtv Proofs.LendProofsRules
-     Proofs.LendProofsMain Proofs.LendProofsAvail.
+     Proofs.LendProofsMain Proofs.LendProofsAvail Proofs.LendProofsEsm.
 
 (* ---------------------------------------------------------------------------------------------- *)
 (* (a) published total lent = sum over the lend positions of the pool-asset of (available to
@@ -383,4 +386,35 @@ Example c08_close_stuck_nonvacuous :
   cleanb ex_cfg ex_st0 ex_close_stuck_prefix = true /\
   option_map (fun b => (b_liq b, b_brd b, b_lend b)) (zget (borrows st) 1) = Some (true, 1000000, 3) /\
   zget (lends st) 3 = None /\ step ex_cfg st ex_close_stuck = Panic.
+Proof. vm_compute. repeat split. Qed.
+
+(* ---------------------------------------------------------------------------------------------- *)
+(* (f) the ESM kill switch and pool depreciation, as the handlers read them.  With the kill switch on for every
+   app, no lend message (all eleven, RepayWithdraw) and no hand-over changes anything: the books are frozen; what
+   still moves the state: bids on / closes of running auctions, the funding messages, oracle moves, the switch *)
+Theorem c08_kill_switch_freezes : forall cfg st o,
+  (forall a, is_killed st a = true) -> lend_msg o = true -> apply_op cfg st o = st.
+Proof. intros cfg st o HK Ho. exact (kill_switch_freezes cfg st HK o Ho). Qed.
+Print Assumptions c08_kill_switch_freezes.
+
+(* a depreciated pool takes no new funds and no new debt: Lend, Deposit, Borrow, DepositBorrow, Draw and
+   BorrowAlternate on it leave the state unchanged (Withdraw, CloseLend, Repay, CloseBorrow are not stopped) *)
+Theorem c08_depreciated_pool_closed : forall cfg st p o,
+  is_depr st p = true -> inflow_on st p o = true -> apply_op cfg st o = st.
+Proof. intros cfg st p o HD Ho. exact (depreciated_pool_closed cfg st p HD o Ho). Qed.
+Print Assumptions c08_depreciated_pool_closed.
+
+Example c08_esm_nonvacuous :
+  let st := run ex_cfg ex_st0 (ex_warm ++ [ex_borrow]) in
+  (* the switch of the lend app goes on: the draw that was admissible is refused (error 32); off again: accepted *)
+  let stk := run ex_cfg st [OKill true 1 true] in
+  killed stk = [1] /\ is_ok (step ex_cfg st (ORepay 1 1 3 400000 bi0)) = true /\
+  step ex_cfg stk (ORepay 1 1 3 400000 bi0) = Err 32 /\ step ex_cfg stk ex_withdraw_free = Err 32 /\
+  step ex_cfg stk (OKill false 1 false) = Err 60 /\
+  is_ok (step ex_cfg (run ex_cfg stk [OKill true 1 false]) (ORepay 1 1 3 400000 bi0)) = true /\
+  (* pool 1 depreciated: no new deposit (error 31), withdrawing still works *)
+  let std := run ex_cfg st [ODepreciate 1] in
+  depr std = [1] /\ inflow_on std 1 (ODeposit 1 2 1 5 0) = true /\ step ex_cfg std (ODeposit 1 2 1 5 0) = Err 31 /\
+  is_ok (step ex_cfg st (ODeposit 1 2 1 5 0)) = true /\ is_ok (step ex_cfg std ex_withdraw_free) = true /\
+  step ex_cfg st (ODepreciate 3) = Err 2.
 Proof. vm_compute. repeat split. Qed.
